@@ -393,7 +393,7 @@ def fresh_result_rule(chk: Check, eng: Engine) -> None:
         raise AnalysisError(f"only {n_sites} in-place mutation(s) of helper results found in the evaluator")
 
 
-def memo_by_reference_rule(chk: Check, eng: Engine) -> None:
+def memo_by_reference_rule(chk: Check, eng: Engine, rule: str = "R11-f") -> None:
     """R11-f.  What constraint evaluation reads from a tree (value(), hash, size, ...) may be memoised on the node - but a memo that is handed
     out by reference must hold an immutable value.  An object with in-place mutators (TreeValue normalises itself inside its conversions) that is
     kept on the node and returned as is gets changed by its readers: the next evaluation of the same tree sees another value than a fresh one."""
@@ -436,11 +436,11 @@ def memo_by_reference_rule(chk: Check, eng: Engine) -> None:
                 if not tnames:
                     raise AnalysisError(f"{m.fq}: cannot type the memo field `{f_}`")
                 if mutable:
-                    chk.bad("R11-f", eng.relfile(m), rets[0].lineno, m.fq, f"the memo `self.{f_}` holds a {mutable[0][0]} and is returned by reference, although {mutable[0][0]} changes itself in {mutable[0][1]}",
+                    chk.bad(rule, eng.relfile(m), rets[0].lineno, m.fq, f"the memo `self.{f_}` holds a {mutable[0][0]} and is returned by reference, although {mutable[0][0]} changes itself in {mutable[0][1]}",
                             "a reader that converts the value (bytes(), str(), int()) normalises the memoised object in place: the same tree evaluated again - from another cache state or by a "
                             "fresh evaluator - yields a different verdict", keyparts=f"mutable-memo|{cls.name}.{f_}")
                 else:
-                    chk.ok("R11-f", m.fq, rets[0].lineno, f"memo `self.{f_}` holds {tnames}: immutable, safe to hand out by reference")
+                    chk.ok(rule, m.fq, rets[0].lineno, f"memo `self.{f_}` holds {tnames}: immutable, safe to hand out by reference")
     if n_memo < 1:
         raise AnalysisError("no node-level memo (hash / size) found on DerivationTree")
 
